@@ -98,7 +98,10 @@ Fixpoint split_lf (s : bytes) (cur : bytes) : list bytes :=
   | c :: r => if c =? cLF then rev cur :: split_lf r [] else split_lf r (c :: cur)
   end.
 Definition skip_bom (s : bytes) : bytes :=
-  match s with 239 :: 187 :: 191 :: r => r | _ => s end.
+  match s with
+  | a :: b :: c :: r => if (a =? 239) && (b =? 187) && (c =? 191) then r else s
+  | _ => s
+  end.
 Definition gline (l : bytes) : option bytes :=
   match l with
   | [] => None
